@@ -3,24 +3,35 @@ def h(name, props, clause, kind="complete", **kw):
     d.update(kw)
     return d
 
+PAIRS = [("ii", "Integer x Integer"), ("ib", "Integer x Byte"), ("bi", "Byte x Integer"), ("bb", "Byte x Byte"),
+         ("ff", "Float x Float"), ("if", "Integer x Float"), ("fi", "Float x Integer"), ("fb", "Float x Byte"), ("bf", "Byte x Float")]
+_hs = []
+for op, sym in [("add", "+"), ("sub", "-"), ("mul", "*"), ("div", "/")]:
+    for k, desc in PAIRS:
+        _hs.append(h("c09_%s_%s" % (op, k), ["C09", "C08"],
+                     "a %s b for %s, every payload%s: Byte mod 2^8, Integer mod 2^64 (wrapping), IEEE with a float operand; no panic"
+                     % (sym, desc, " with a non-zero divisor" if op == "div" else "")))
+for k, desc in PAIRS[:4]:
+    _hs.append(h("c09_rem_%s" % k, ["C09", "C08"], "a %% b for %s with a non-zero divisor = wrapping_rem (MIN %% -1 = 0), no panic" % desc))
+
 UNIT = dict(
     name="ops",
     appends=[("src/object/mod.rs", "units/ops/harness.rs")],
-    harnesses=[
-        h("c09_add_model", ["C09", "C08"], "a + b on every scalar kind pair and payload: Byte mod 2^8, Integer mod 2^64, IEEE with a float operand; no panic"),
-        h("c09_sub_model", ["C09", "C08"], "a - b, same model"),
-        h("c09_mul_model", ["C09", "C08"], "a * b, same model"),
-        h("c09_div_int_model", ["C09", "C08"], "integer/byte division by a non-zero divisor = wrapping_div (MIN / -1 = MIN), no panic"),
-        h("c09_rem_int_model", ["C09", "C08"], "integer/byte remainder by a non-zero divisor = wrapping_rem (MIN % -1 = 0), no panic"),
-        h("c09_div_float_model", ["C09"], "float division = IEEE division of the converted operands"),
+    harnesses=_hs + [
         h("c09_rem_float_kind", ["C09"], "float remainder returns a Float (value not modelled: CBMC has no fmod)", kind="bounded", bound="result kind only"),
         h("c09_neg_model", ["C09", "C08"], "unary minus: wrapping_neg on integers, IEEE negation on floats"),
         h("c09_shift_bitwise_model", ["C09", "C08"], "<< >> with the amount modulo 64, & | ^ bitwise, on all i64 pairs; no panic"),
-        h("c09_compare_model", ["C09"], "partial_cmp/>/>=: exact on integers and bytes, IEEE double compare with a float operand, consistent with =="),
+        h("c09_compare_ii", ["C09"], "Integer x Integer: partial_cmp/>/>= exact, consistent with =="),
+        h("c09_compare_ff", ["C09"], "Float x Float: IEEE compare, consistent with =="),
+        h("c09_compare_if", ["C09"], "Integer x Float: compared as doubles, consistent with =="),
+        h("c09_compare_fi", ["C09"], "Float x Integer: compared as doubles, consistent with =="),
+        h("c09_compare_bb", ["C09"], "Byte x Byte: exact, consistent with =="),
         h("c09_compare_chars", ["C09"], "chars compare by code point, == is identity"),
-        h("c09_compare_bool_null_unordered", ["C09"], "booleans and null are unordered"),
+        h("c09_compare_null_unordered", ["C09"], "null is unordered"),
         h("c06_is_falsey_scalars", ["C06"], "is_falsey on every Bool/Integer/Float/Char/Byte value and Null equals the documented table"),
-        h("c10_eq_implies_same_hash_scalars", ["C10"], "k1 == k2 implies identical hasher input, all pairs of scalar keys (Integer, Float, Byte, Char, Bool, Null)"),
+    ] + [h("c10_hash_%s" % n, ["C10"], "k1 == k2 implies identical hasher input, all %s key pairs" % n.replace("_", " x "))
+         for n in ["int_int", "float_float", "int_float", "float_int", "byte_byte", "char_char", "bool_bool", "null_null"]] + [
+        h("c10_cross_kind_never_equal", ["C10"], "keys of different kinds (other than Integer/Float) are never =="),
     ],
-    jobs=14,
+    jobs=16,
 )
